@@ -797,10 +797,12 @@ def near_identity(tm, kinds=NEAR_KINDS):
                         read()
                     try:
                         obj.apply_transform(M.copy())
-                    except ValueError:
-                        if kind.startswith("prim"):
-                            continue
-                        raise
+                    except Exception as e:
+                        if kind.startswith("prim") and isinstance(e, ValueError):
+                            continue           # a primitive may refuse (anisotropic scale)
+                        n[kind] += 1
+                        fails.append({"clause": "raised", "kind": kind, "eps": eps, "what": what, "warm": warm, "exc": repr(e)[:160]})
+                        continue
                     n[kind] += 1
                     want = v @ M[:dim - 1, :dim - 1].T + M[:dim - 1, dim - 1]
                     # documented granularity of the shortcut: 1e-8 absolute per unit of size
@@ -879,7 +881,7 @@ def build_jobs(tier):
         for a, b in pairs:
             exact("base", kind, [a, b], False, warms[-1] if (len(a) + len(b)) % 2 else "none")
         if not quick:
-            for _ in range(150):
+            for _ in range(500):
                 tri = [ns[j] for j in rs.randint(len(ns), size=3)]
                 exact("base", kind, tri, bool(rs.randint(2)), warms[rs.randint(len(warms))])
     # ---- every map applied twice (mirror twice = no re-winding)
@@ -892,7 +894,7 @@ def build_jobs(tier):
             for warm in (["none", "all"] if quick else warms_of(kind)):
                 exact("seeds", kind, [n], False, warm)
             exact("seeds", kind, [n], True, "normals")
-        for a, b in pick(itertools.product(MATRIX, repeat=2), 30 if quick else 200):
+        for a, b in pick(itertools.product(MATRIX, repeat=2), 30 if quick else 10 ** 6):
             exact("seeds", kind, [a, b], False, "all" if (len(a) + len(b)) % 2 else "none")
     # ---- entry points: apply_scale / apply_translation build the matrix themselves
     for kind in MESH_KINDS[:2] + ["cloud", "path3d", "path2d", "prim_box", "voxel", "voxel_identity", "scene"]:
@@ -903,7 +905,7 @@ def build_jobs(tier):
                 exact("entry", kind, [n], False, warm)
             exact("entry", kind, [n], True, warms_of(kind)[-1])
         both = [(a, b) for a in es for b in ms] + [(b, a) for a in es for b in ms] + list(itertools.product(es, repeat=2))
-        for a, b in pick(both, 24 if quick else 400):
+        for a, b in pick(both, 24 if quick else 10 ** 6):
             exact("entry", kind, [a, b], False, warms_of(kind)[(len(a) + len(b)) % 2])
     # ---- the same matrix in another container / dtype / memory layout
     for kind in MESH_KINDS[:2] + ["cloud", "path3d", "path2d", "prim_box", "voxel", "scene"]:
@@ -921,7 +923,7 @@ def build_jobs(tier):
                 exact("attached", kind, [n], False, "all" if variant != "texture" else "normals", attached=variant)
             for n in pick(MATRIX, 6 if quick else 30):
                 exact("attached", kind, [n], True, "none", attached=variant)
-            for a, b in pick(itertools.product(MATRIX, repeat=2), 10 if quick else 100):
+            for a, b in pick(itertools.product(MATRIX, repeat=2), 10 if quick else 10 ** 6):
                 exact("attached", kind, [a, b], False, "normals", attached=variant)
     for n in MATRIX + ENTRY:
         exact("attached", "scene", [n], False, "warm", attached="node_metadata")
@@ -929,7 +931,7 @@ def build_jobs(tier):
     for kind in kinds3 + ["path2d", "mesh_two", "mesh_degen"]:
         ms = PLANAR if kind == "path2d" else MATRIX
         pairs = list(itertools.product(ms, repeat=2))
-        for a, b in pick(pairs, (80 if kind == "mesh_box" else 16) if quick else 300):
+        for a, b in pick(pairs, (80 if kind == "mesh_box" else 16) if quick else 10 ** 6):
             exact("between", kind, [a, b], False, warms_of(kind)[(len(a) + len(b)) % len(warms_of(kind))], between=True)
     # ---- empty geometries
     for kind in ("mesh_empty", "cloud_empty", "voxel_empty"):
